@@ -53,6 +53,21 @@ class _StrOps(ast.NodeTransformer):
             return ast.copy_location(new, node)
         return node
 
+    def visit_Import(self, node):
+        # ``import re`` binds the symbolic-string aware stand-in (pysx/reshim.py); everything else is untouched
+        keep, out = [], []
+        for al in node.names:
+            if al.name == "re":
+                out.append(ast.copy_location(ast.Assign(targets=[ast.Name(id=al.asname or "re", ctx=ast.Store())],
+                                                        value=ast.Name(id="pysx__re", ctx=ast.Load())), node))
+            else:
+                keep.append(al)
+        if not out:
+            return node
+        if keep:
+            out.insert(0, ast.copy_location(ast.Import(names=keep), node))
+        return out
+
     def visit_Compare(self, node):
         self.generic_visit(node)
         if len(node.ops) == 1 and isinstance(node.ops[0], (ast.In, ast.NotIn)):
@@ -103,6 +118,8 @@ def load_source(path, fullname, package, overrides=None, pre=None, siblings=None
     mod.__package__ = package
     mod.__dict__["pysx__m"] = _pysx_m
     mod.__dict__["pysx__in"] = _pysx_in
+    from .reshim import ReShim
+    mod.__dict__["pysx__re"] = ReShim()
     if pre:
         mod.__dict__.update(pre)
     saved = sys.modules.get(fullname)
